@@ -1,28 +1,49 @@
 ---------------------------- MODULE DagStore ----------------------------
 (* C18, the save of a definition at system-call grain (local/dag_store.go UpdateSpec after 7d260b7):
    validate . openat(O_CREAT|O_TRUNC <file>.tmp) . write(text) . close . renameat(<file>.tmp, <file>),
-   the saving process may be killed anywhere, a write may be torn.  Atomic == FALSE models the code before
-   the fix (openat(O_TRUNC <file>) . write): TLC then finds the window with an empty / partial definition. *)
+   the saving process may be killed anywhere, a write may be torn, and the definition is saved again afterwards by
+   another process (a series of saves; the temporary file of a killed save is still there).
+   File contents are sequences of characters; a write overwrites from offset 0 and keeps what lies behind it, which is
+   why the open must truncate.
+   Atomic = FALSE models the code before the fix (openat(O_TRUNC <file>) . write): TLC finds the window with an
+   empty / partial definition.  Trunc = FALSE models the seeded defect C18-d (the temporary file is opened without
+   O_TRUNC): TLC finds the shorter text saved after a killed save of a longer one, followed by the longer one's tail. *)
 EXTENDS Integers, Sequences, TLC
 
-CONSTANTS Atomic
-VARIABLES file,   \* content of the definition: "old" | "new" | "empty" | "partial"
-          tmp,    \* content of the temporary file: "none" | "empty" | "partial" | "new"
-          pc      \* "start" | "opened" | "written" | "renamed" | "done" | "crashed"
-vars == <<file, tmp, pc>>
-Init == file = "old" /\ tmp = "none" /\ pc = "start"
-Open == /\ pc = "start" /\ pc' = "opened"
-        /\ IF Atomic THEN tmp' = "empty" /\ UNCHANGED file ELSE file' = "empty" /\ UNCHANGED tmp
-Write == /\ pc = "opened" /\ pc' = "written"
-         /\ IF Atomic THEN tmp' = "new" /\ UNCHANGED file ELSE file' = "new" /\ UNCHANGED tmp
-Rename == /\ pc = "written" /\ Atomic /\ file' = tmp /\ tmp' = "none" /\ pc' = "done"
-Finish == /\ pc = "written" /\ ~Atomic /\ pc' = "done" /\ UNCHANGED <<file, tmp>>
-Crash == /\ pc \notin {"done", "crashed"} /\ pc' = "crashed"
+CONSTANTS Atomic, Trunc
+Old   == <<"a", "a", "a">>
+Texts == << <<"b", "b", "b", "b">>, <<"c", "c">>, <<"d", "d", "d">> >>       \* saved one after the other
+
+VARIABLES file,       \* content of the definition
+          tmpExists, tmp,   \* the temporary file
+          pc,         \* "start" | "opened" | "written" | "done" | "crashed"
+          k           \* the save in progress (index into Texts)
+vars == <<file, tmpExists, tmp, pc, k>>
+
+Over(c, t) == t \o SubSeq(c, Len(t) + 1, Len(c))             \* write t at offset 0 of content c
+Prefixes(t) == {SubSeq(t, 1, n) : n \in 0..(Len(t) - 1)}      \* what a torn write gets through
+
+Init == file = Old /\ tmpExists = FALSE /\ tmp = <<>> /\ pc = "start" /\ k = 1
+Open == /\ pc = "start" /\ pc' = "opened" /\ UNCHANGED k
+        /\ IF Atomic THEN /\ tmpExists' = TRUE /\ tmp' = IF Trunc \/ ~tmpExists THEN <<>> ELSE tmp
+                          /\ UNCHANGED file
+                     ELSE /\ file' = IF Trunc THEN <<>> ELSE file
+                          /\ UNCHANGED <<tmpExists, tmp>>
+Write == /\ pc = "opened" /\ pc' = "written" /\ UNCHANGED <<k, tmpExists>>
+         /\ IF Atomic THEN tmp' = Over(tmp, Texts[k]) /\ UNCHANGED file
+                      ELSE file' = Over(file, Texts[k]) /\ UNCHANGED tmp
+Rename == /\ pc = "written" /\ Atomic /\ file' = tmp /\ tmpExists' = FALSE /\ tmp' = <<>> /\ pc' = "done" /\ UNCHANGED k
+Finish == /\ pc = "written" /\ ~Atomic /\ pc' = "done" /\ UNCHANGED <<file, tmpExists, tmp, k>>
+Crash == /\ pc \notin {"done", "crashed"} /\ pc' = "crashed" /\ UNCHANGED <<k, tmpExists>>
          /\ \/ UNCHANGED <<file, tmp>>
             \/ /\ pc = "opened"                   \* the write in flight is torn
-               /\ IF Atomic THEN tmp' = "partial" /\ UNCHANGED file ELSE file' = "partial" /\ UNCHANGED tmp
-Next == Open \/ Write \/ Rename \/ Finish \/ Crash
+               /\ \E p \in Prefixes(Texts[k]) :
+                    IF Atomic THEN tmp' = Over(tmp, p) /\ UNCHANGED file ELSE file' = Over(file, p) /\ UNCHANGED tmp
+\* the next save, by a fresh process
+NextSave == /\ pc \in {"done", "crashed"} /\ k < Len(Texts) /\ k' = k + 1 /\ pc' = "start"
+            /\ UNCHANGED <<file, tmpExists, tmp>>
+Next == Open \/ Write \/ Rename \/ Finish \/ Crash \/ NextSave
 Spec == Init /\ [][Next]_vars
-C18_AllOrNothing == file \in {"old", "new"}
-C18_SavedWhenDone == pc = "done" => file = "new"
+C18_AllOrNothing == file = Old \/ \E i \in 1..k : file = Texts[i]
+C18_SavedWhenDone == pc = "done" => file = Texts[k]
 =============================================================================
